@@ -73,9 +73,9 @@ type Fault struct {
 	Bytes string `json:"bytes"` // hex replacement
 	Block int    `json:"block"`
 	InLog bool   `json:"inlog"`
-	Size  int    `json:"size"` // truncate: new size
+	Size  int    `json:"size"`          // truncate: new size
 	Pos   []int  `json:"pos,omitempty"` // flip: byte*8+bit positions; splice: src, len, dst
-	Feat  string `json:"feat"` // layout feature of the table (for distinct counting)
+	Feat  string `json:"feat"`          // layout feature of the table (for distinct counting)
 }
 
 type Plan struct {
